@@ -93,7 +93,7 @@ def compute_reference(req, base_tmp):
         stem = req['stem']
         suffix = req.get('suffix', '.pdb')
         path = os.path.join(d, stem + suffix)
-        with open(path, 'w') as fh:
+        with open(path, 'w', encoding='utf-8') as fh:
             fh.write(req['text'])
         ppath = None
         if req.get('param_text') is not None:
